@@ -513,6 +513,7 @@ var (
 	reClassCode       = regexp.MustCompile(`\bclass\b`)
 	reCatchPattern    = regexp.MustCompile(`catch\s*\(\s*[\[{]`)
 	reReexportBinding = regexp.MustCompile(`export\s*\{[^}]*\}\s*from|export\s*\*\s*as|import\s*\*\s*as\s*(eval|arguments)\b|import\s*\{[^}]*\b(eval|arguments)\b`)
+	reAliasThenFn     = regexp.MustCompile(`var [\w$]+ ?= ?([\w$]+);\s*(?:async )?function\*? ?([\w$]+)\(`)
 	reInfStmt         = regexp.MustCompile(`(Infinity|NaN)\s*(;|\}|$)`)
 )
 
@@ -579,6 +580,13 @@ func knownNotFixed(c *glueCase) string {
 	}
 	if c.err2 == "" && (strings.Contains(c.src, "//!") || strings.Contains(c.src, "/*!") || strings.Contains(c.src, "@license") || strings.Contains(c.src, "@preserve")) {
 		return "recurrence of known finding C13-D4b: a stripped legal comment leaves a semicolon that the second pass drops (minify-whitespace)"
+	}
+	if c.err2 == "" && strings.Contains(c.out1, "switch") {
+		for _, m := range reAliasThenFn.FindAllStringSubmatch(c.out1, -1) {
+			if m[1] == m[2] {
+				return "recurrence of known finding C13-D11: a function declaration kept in a switch case (fix 551782c) is renamed and aliased again by every further pass"
+			}
+		}
 	}
 	if c.err2 == "" && reInfStmt.MatchString(c.out1) {
 		return "recurrence of known finding C13-D4: numeric literal statement printed as Infinity/NaN is dropped by the second pass"
@@ -652,6 +660,7 @@ var knownReplays = []knownReplay{
 	{"known-D4c", "known-D4c-parentheses-added-behind-preserved-comment", "class Foo { foo =/**/() => super.x }", variant{}, "notfixed", "second Transform reproduces the first output"},
 	{"known-D8", "known-D8-commonjs-wrapper-in-esm-keeps-sloppy-identifiers", "return\nlet", variant{format: api.FormatESModule}, "unreparsable", "an error, or ESM output that is valid strict code"},
 	{"known-D10", "known-D10-let-bracket-at-start-of-for-head", "for ((let)[x];;);", variant{}, "invalidout", "`for ((let)[x]; ; ) ;` (a for head must not start with `let [`: that is a lexical declaration)"},
+	{"known-D11", "known-D11-function-in-switch-case-aliased-again-by-every-pass", "switch (0) { default: function f() {} }", variant{}, "notfixed", "second Transform reproduces the first output"},
 	{"known-D4d", "known-D4d-directive-string-escape-not-stable", "-0;\n'\\u{1F600}';\n", variant{}, "notfixed", "second Transform reproduces the first output"},
 	{"known-D4a", "known-D4a-infinity-statement-dropped-by-second-pass", "if (x) 1e400; else y", variant{}, "notfixed", "second Transform reproduces the first output"},
 	{"known-D4b", "known-D4b-semicolon-after-stripped-legal-comment", "if (1) {foo() //! test\n}", variant{mw: true}, "notfixed", "second Transform reproduces the first output"},
